@@ -39,6 +39,13 @@ WORDS = ['alpha', 'beta', 'gamma', 'delta', 'lorem', 'ipsum', 'dolor', 'sit', 'a
          'true', 'null', 'caf\u00e9', '\u4e2d\u6587', '\U0001F600', 'a b c', 'http://x.y/z']
 
 
+def canaries():
+    return {'K1-eager-block-validation': {
+        'api': 'load_all', 'backend': 'py', 'form': 'utf8', 'loader': None, 'malformed': 'reader-bad-utf8', 'mode': 'order',
+        'parts': [{'kind': 'doc', 'text': '---\na: 1\n'}, {'kind': 'doc', 'text': '---\nb: 2\n'},
+                  {'kind': 'bad', 'text': '---\nkey: va\udcfflue\n'}], 'sizes': [], 'then': None}}
+
+
 def plan(tier):
     if tier == 'quick':
         return {'runs': 3000, 'wall': 300, 'batch': 4, 'shrink_s': 60, 'selfcheck': 6}
